@@ -104,7 +104,19 @@ def _env_matches(I, a, k):
     return list(I.p.ghost.get(('env_matches', a[0]), []))
 
 
+def _build_trie(I, a, k):
+    """a TrieTree built by the REAL insert() code from the given token lists and ids"""
+    cls = I.repo.find('Python/libraries/recognizers-text/recognizers_text/matcher/trie_tree.py::TrieTree')
+    t = I.instantiate(cls, [], {})
+    ins = I.repo.find_method(cls, 'insert')
+    from .values import FuncVal
+    for phrase, pid in zip(a[0], a[1]):
+        I.call_func(FuncVal(ins, t, ins.cls), [list(phrase), pid], {})
+    return t
+
+
 NATIVE = {
+    'build_trie': _build_trie,
     'env_matches': _env_matches,
     'fill': _ghost_fill,
     'model_cache': _model_cache,
